@@ -9,10 +9,13 @@ import (
 	"os/exec"
 	"strings"
 	"sync"
+	"sync/atomic"
+	"time"
 
 	"github.com/pkg/errors"
 	"github.com/spikeekips/mitum/base"
 	"github.com/spikeekips/mitum/isaac"
+	isaacblock "github.com/spikeekips/mitum/isaac/block"
 	"github.com/spikeekips/mitum/util"
 	"github.com/spikeekips/mitum/util/fixedtree"
 	"github.com/spikeekips/mitum/util/valuehash"
@@ -29,6 +32,30 @@ type c18proof struct {
 	chain, sh int
 	st        base.State
 	prevHash  util.Hash
+	gate      *c18gate // proofs around a foreign junction meet inside the builder's prove step, when the builder lets them
+	calls     *int32
+}
+
+// c18gate: the builder asks a proof for its height once when the response arrives and once more at the start of its
+// prove step.  The proofs on both sides of a foreign junction wait there for each other, for a few milliseconds: a
+// builder that proves one proof at a time never lets two of them in, and the wait just times out
+type c18gate struct {
+	sync.Mutex
+	need, arrived int
+	open          chan struct{}
+}
+
+func (g *c18gate) wait() {
+	g.Lock()
+	g.arrived++
+	if g.arrived == g.need {
+		close(g.open)
+	}
+	g.Unlock()
+	select {
+	case <-g.open:
+	case <-time.After(3 * time.Millisecond):
+	}
 }
 
 func (p c18proof) IsValid([]byte) error             { return nil }
@@ -36,7 +63,12 @@ func (p c18proof) Map() base.BlockMap               { return nil }
 func (p c18proof) State() base.State                { return p.st }
 func (p c18proof) Proof() fixedtree.Proof           { return fixedtree.Proof{} }
 func (p c18proof) Suffrage() (base.Suffrage, error) { return nil, errors.Errorf("stub") }
-func (p c18proof) SuffrageHeight() base.Height      { return base.Height(p.sh) }
+func (p c18proof) SuffrageHeight() base.Height {
+	if p.gate != nil && atomic.AddInt32(p.calls, 1) == 2 {
+		p.gate.wait()
+	}
+	return base.Height(p.sh)
+}
 func (p c18proof) Prove(previous base.State) error {
 	switch {
 	case previous == nil && p.sh == 0:
@@ -74,6 +106,23 @@ func (w *c18world) proof(chain, sh int) c18proof {
 		p.prevHash = w.state(chain, sh-1).Hash()
 	}
 	return p
+}
+
+// a real suffrage proof of the genesis block: manifest, suffrage state of (chain 0, height 0), and the tree proof of
+// another state of that block
+func c18forgedGenesis(w *c18world) (base.SuffrageProof, error) {
+	st := w.state(0, 0)
+	other := base.NewBaseState(base.GenesisHeight, "k-"+util.UUID().String(), base.NewDummyStateValue(util.UUID().String()), nil, []util.Hash{valuehash.RandomSHA256()})
+	tr, err := c13tree([]string{other.Hash().String(), valuehash.RandomSHA256().String()})
+	if err != nil {
+		return nil, err
+	}
+	proof, err := fixedtree.NewProofFromNodes(tr.Nodes(), other.Hash().String())
+	if err != nil {
+		return nil, err
+	}
+	manifest := isaac.NewManifest(base.GenesisHeight, nil, valuehash.RandomSHA256(), nil, tr.Root(), st.Hash(), time.Now().UTC())
+	return isaacblock.NewSuffrageProof(c13map{m: manifest}, st, proof), nil
 }
 
 type c18case struct {
@@ -115,6 +164,11 @@ func (c *Ctx) c18gen(big bool) c18case {
 			cs.Resp[i] = cs.Resp[j]
 			cs.Kind = "duplicated-height"
 		}
+	case k < 9 && local < 0 && c.Bool():
+		// the genesis proof is a real isaacblock.SuffrageProof whose tree proof is that of another state: well formed, and
+		// it proves nothing
+		cs.Resp[0] = "g.0"
+		cs.Kind = "forged-genesis"
 	case k < 9:
 		i := c.Intn(n)
 		if local+1+i > 0 { // a foreign genesis proof has no predecessor to be checked against
@@ -149,6 +203,22 @@ func c18run(cs c18case) string {
 		sv := isaac.NewSuffrageNodesStateValue(base.Height(cs.Last), []base.SuffrageNodeStateValue{isaac.NewSuffrageNodeStateValue(w.node, base.Height(cs.Last))})
 		lastp.st = base.NewBaseState(base.Height(1000), isaac.SuffrageStateKey, sv, valuehash.RandomSHA256(), []util.Hash{valuehash.RandomSHA256()})
 	}
+	// the responses on both sides of a foreign junction
+	gated := map[int]bool{}
+	var gate *c18gate
+	if cs.Kind == "foreign-chain" {
+		for i, r := range cs.Resp {
+			if strings.HasPrefix(r, "1.") {
+				for _, j := range []int{i - 1, i, i + 1} {
+					if j >= 0 && j < len(cs.Resp) && cs.Resp[j] != "-" {
+						gated[j] = true
+					}
+				}
+			}
+		}
+		gate = &c18gate{need: len(gated), open: make(chan struct{})}
+	}
+	var fetched sync.Map
 	b := isaac.NewSuffrageStateBuilder(hNetworkID,
 		func(context.Context) (base.Height, base.SuffrageProof, bool, error) {
 			return base.Height(cs.Last * 2), lastp, true, nil
@@ -158,9 +228,17 @@ func c18run(cs c18case) string {
 			if i < 0 || i >= len(cs.Resp) || cs.Resp[i] == "-" {
 				return nil, false, nil
 			}
+			if cs.Resp[i] == "g.0" {
+				p, err := c18forgedGenesis(w)
+				return p, err == nil, err
+			}
 			var ch, sh int
 			fmt.Sscanf(cs.Resp[i], "%d.%d", &ch, &sh)
-			return w.proof(ch, sh), true, nil
+			p := w.proof(ch, sh)
+			if _, again := fetched.LoadOrStore(i, true); gated[i] && !again && gate.need > 1 {
+				p.gate, p.calls = gate, new(int32)
+			}
+			return p, true, nil
 		},
 		func(context.Context) (base.State, bool, error) { return nil, false, nil },
 	)
